@@ -85,7 +85,7 @@ theorem parse_total_false_before_fix_type :
     parse false "<13>PEP".toList = .error .type := by decide +kernel
 
 /-- the multi-chain joiner never indexes past `connections`, given one flag per junction -/
-theorem serializeMulti_ok (plus : Bool) (as : List Annotation) (conns : List (Option Bool))
+theorem serializeMulti_ok (plus : Plus) (as : List Annotation) (conns : List (Option Bool))
     (h : as.length ≤ conns.length + 1) : ∃ t, serializeMulti plus as conns = .ok t := by
   induction as generalizing conns with
   | nil => exact ⟨_, rfl⟩
@@ -101,7 +101,7 @@ theorem serializeMulti_ok (plus : Bool) (as : List Annotation) (conns : List (Op
 
 /-- **Whatever the parser accepts can be serialized** (either `include_plus`): `serialize` is a total function of the
 model for single annotations, and for multi-chain results the connection list the parser builds is long enough. -/
-theorem serialize_total (fixed plus : Bool) (s : List Char) (p : Parsed) (h : parse fixed s = .ok p) :
+theorem serialize_total (fixed : Bool) (plus : Plus) (s : List Char) (p : Parsed) (h : parse fixed s = .ok p) :
     ∃ t, serializeParsed plus p = .ok t := by
   unfold parse at h
   split at h
@@ -114,7 +114,7 @@ theorem serialize_total (fixed plus : Bool) (s : List Char) (p : Parsed) (h : pa
       · cases h
         exact serializeMulti_ok _ _ _ (by simp; omega)
 
-example : serializeParsed true (.multi [{ seq := "PEP".toList }, { seq := "TIDE".toList, charge := some 2 }] [some false])
+example : serializeParsed (constPlus true) (.multi [{ seq := "PEP".toList }, { seq := "TIDE".toList, charge := some 2 }] [some false])
     = .ok "PEP+TIDE/2".toList := by decide +kernel
 
 end Pept
